@@ -335,7 +335,7 @@ def Tx.receiveSack (t : Tx) (cum : Int) (gaps : List (Nat × Nat)) (now1000 : In
       if gaps.isEmpty then .ok (t, doneBytes, false)
       else
         let limit : Nat := match t.sentQ.getLast? with
-          | some l => ((l.tsn - cum) % 4294967296).toNat
+          | some l => if uint32_gt l.tsn cum then ((l.tsn - cum) % 4294967296).toNat else 0
           | none => 0
         let (seen, highestSeen) := gapSeen cum limit gaps
         let (fl, db, hna, sent) := htnaLoop seen highestSeen t.flight doneBytes cum [] t.sentQ
